@@ -58,7 +58,7 @@ Record InvS (st : state) (log stk : list nat) (home : nat -> nat) (extra : nat -
   I_decl_complete : forall r, (r < nvars st)%nat -> is_root st r -> vd st r <> 0 ->
                     In r (sdeclared (sc_of st (home r))) ;
   I_und : forall s v, In s stk -> In v (sundeclared (sc_of st s)) ->
-          is_root st v /\ (vd st v = 0 -> home v = s) ;
+          is_root st v /\ (vd st v = 0 -> home v = s) /\ (home v <= s)%nat ;
   I_und_nodup : forall s, In s stk -> NoDup (sundeclared (sc_of st s)) ;
   I_pend_unique : forall s v1 v2, In s stk ->
           In v1 (sundeclared (sc_of st s)) -> In v2 (sundeclared (sc_of st s)) ->
